@@ -22,6 +22,8 @@ namespace Xeh.Driver
 /-- first token of a request line = property id -/
 def handleLine (line : String) : String :=
   match (line.trimAscii.toString.splitOn " ").filter (· ≠ "") with
+  -- a history of sources on one interpreter (Driver/Sess.lean), whichever property asks
+  | _ :: "sess" :: rest => Sess.handle rest
   | "C01" :: rest => C01.handle rest
   | "C02" :: rest => C02.handle rest
   | "C03" :: rest => C03.handle rest
